@@ -600,7 +600,8 @@ func (k *checker) leaf(x ctx, r *bufzoo.Result) {
 	// (2) bytes handed out before an error / early close are a prefix of
 	// the stitched stream from the requested offset: nothing duplicated,
 	// nothing skipped.
-	if l.Method != bufzoo.ToProto && len(seen) > 0 {
+	// (What ToByteSlice returns NEXT TO an error is not delivered data.)
+	if l.Method != bufzoo.ToProto && !(l.Method == bufzoo.ToByteSlice && r.Err != nil) && len(seen) > 0 {
 		st := k.stream()
 		if r.Off < 0 || r.Off > int64(len(st)) || !bytes.HasPrefix(st[r.Off:], seen) {
 			k.fail("%s was handed %x at offset %d, not a prefix of the stitched stream %x", where, seen, r.Off, st)
@@ -772,10 +773,13 @@ func prop(rec *vstats.Recorder) func(t *rapid.T) {
 				c.Class("offer_in_invalid_args_session")
 				continue
 			}
-			// Read-ahead: the part that overflowed the stated size may
-			// have reported its failure before the validator stopped.
-			extra := i - len(want)
-			if sm.overflowPart >= 0 && extra == 0 && cs.parts[sm.overflowPart].FailAt >= 0 && bufzoo.SameError(got, cs.parts[sm.overflowPart].FailErr()) {
+			// Read-ahead: once the stitched stream has grown beyond the
+			// stated size the session is lost (the validator above will
+			// refuse it); how far the stitching layer below has run ahead
+			// - the failure of the overflowing part, then the rejection of
+			// a replacement opened beyond its end, ... - before the
+			// validator stops it depends on buffering, not on the property.
+			if sm.overflowPart >= 0 {
 				c.Class("overflow_readahead_offer")
 				continue
 			}
@@ -791,8 +795,8 @@ func prop(rec *vstats.Recorder) func(t *rapid.T) {
 		// handed out follows from (5).
 		probes := append([]*bufzoo.Probe{pr0}, h.Parts()...)
 		maxUsed := sm.used
-		if sm.overflowPart >= 0 && len(received) > len(want) {
-			maxUsed++
+		if sm.overflowPart >= 0 {
+			maxUsed = len(cs.parts) - 1
 		}
 		if sm.argsFree {
 			maxUsed = len(cs.parts) - 1
